@@ -61,6 +61,35 @@ type poolInfo struct {
 	size uint64
 }
 
+type poolOutcome struct {
+	when vset
+	pool string
+}
+
+// poolOutcomes: which pool a sync.Pool method call addresses for which values of
+// the tracked word: the receiver is a pool variable, or a pointer chosen among
+// pool variables in the arms of a switch (a phi, resolved per incoming edge).
+func poolOutcomes(ci ssa.CallInstruction, sets map[*ssa.BasicBlock]vset, perEdge map[cfgEdge]vset) []poolOutcome {
+	recv := ci.Common().Args[0]
+	switch x := recv.(type) {
+	case *ssa.Global:
+		return []poolOutcome{{sets[ci.Block()], x.Name()}}
+	case *ssa.Phi:
+		var out []poolOutcome
+		for i, e := range x.Edges {
+			if gl, ok := e.(*ssa.Global); ok {
+				s := perEdge[cfgEdge{x.Block().Preds[i], x.Block()}]
+				if x.Block() != ci.Block() {
+					s = s.intersect(sets[ci.Block()])
+				}
+				out = append(out, poolOutcome{s, gl.Name()})
+			}
+		}
+		return out
+	}
+	return nil
+}
+
 func ruleSizeTables(c *Check, p *Program, rule string) {
 	pkg := p.Pkg("internal/lz4block")
 	if pkg == nil {
@@ -131,13 +160,23 @@ func ruleSizeTables(c *Check, p *Program, rule string) {
 	index := map[uint64]uint64{}
 	if idxFn != nil && len(idxFn.Params) == 1 {
 		c.Funcs[fname(idxFn)] = true
-		sets := valueSetsAt(idxFn, idxFn.Params[0], idxFn.Blocks[0], 32)
+		prm := idxFn.Params[0]
+		sets, perEdge := valueSetsFull(idxFn, func(v ssa.Value) bool { return stripSameWidth(v) == prm }, idxFn.Blocks[0], 32)
+		note := func(k uint64, s vset) {
+			if k != 0 && len(s) == 1 && s[0].lo == s[0].hi {
+				index[s[0].lo] = k
+			}
+		}
 		allInstrs(idxFn, func(in ssa.Instruction) {
 			if r, ok := in.(*ssa.Return); ok && len(r.Results) == 1 {
-				if k, isK := constUint(r.Results[0]); isK && k != 0 {
-					s := sets[in.Block()]
-					if len(s) == 1 && s[0].lo == s[0].hi {
-						index[s[0].lo] = k
+				if k, isK := constUint(r.Results[0]); isK {
+					note(k, sets[in.Block()])
+				} else if ph, isPhi := r.Results[0].(*ssa.Phi); isPhi {
+					// a result variable assigned in the arms of the switch
+					for i, e := range ph.Edges {
+						if k, isK := constUint(e); isK {
+							note(k, perEdge[cfgEdge{ph.Block().Preds[i], ph.Block()}])
+						}
 					}
 				}
 			}
@@ -147,14 +186,14 @@ func ruleSizeTables(c *Check, p *Program, rule string) {
 	get := map[uint64]string{}
 	if g := p.Func("internal/lz4block", "BlockSizeIndex.Get"); g != nil && len(g.Params) == 1 {
 		c.Funcs[fname(g)] = true
-		sets := valueSetsAt(g, g.Params[0], g.Blocks[0], 8)
+		prm := g.Params[0]
+		sets, perEdge := valueSetsFull(g, func(v ssa.Value) bool { return stripSameWidth(v) == prm }, g.Blocks[0], 8)
 		for _, ci := range callsIn(g) {
 			if f := staticCallee(ci); f != nil && f.Name() == "Get" && strings.Contains(f.String(), "sync.Pool") {
-				if gl, ok := ci.Common().Args[0].(*ssa.Global); ok {
-					s := sets[ci.Block()]
-					for _, iv := range s {
+				for _, o := range poolOutcomes(ci, sets, perEdge) {
+					for _, iv := range o.when {
 						for v := iv.lo; v <= iv.hi && v-iv.lo < 16; v++ {
-							get[v] = gl.Name()
+							get[v] = o.pool
 						}
 					}
 				}
@@ -177,13 +216,12 @@ func ruleSizeTables(c *Check, p *Program, rule string) {
 			}
 		})
 		if w != nil {
-			sets := valueSetsAt(g, w, g.Blocks[0], 32)
+			sets, perEdge := valueSetsFull(g, func(v ssa.Value) bool { return stripSameWidth(v) == w }, g.Blocks[0], 32)
 			for _, ci := range callsIn(g) {
 				if f := staticCallee(ci); f != nil && f.Name() == "Put" && strings.Contains(f.String(), "sync.Pool") {
-					if gl, ok := ci.Common().Args[0].(*ssa.Global); ok {
-						s := sets[ci.Block()]
-						if len(s) == 1 && s[0].lo == s[0].hi {
-							put[s[0].lo] = gl.Name()
+					for _, o := range poolOutcomes(ci, sets, perEdge) {
+						if s := o.when; len(s) == 1 && s[0].lo == s[0].hi {
+							put[s[0].lo] = o.pool
 						}
 					}
 				}
@@ -431,10 +469,8 @@ func ruleRawFlagPairing(c *Check, p *Program, rule string) {
 	for _, s := range stores {
 		if s.fromSrc {
 			for _, a := range atomsOfBlock(s.blk) {
-				if b, ok := a.V.(*ssa.BinOp); ok && a.Kind == "cmp" && b.Op == token.EQL && a.Val {
-					if k, isK := constUint(b.Y); isK && k == 0 {
-						okZero = true
-					}
+				if v := atomSaysZero(a); v != nil {
+					okZero = true
 				}
 			}
 		}
@@ -751,4 +787,60 @@ func ruleDescriptorConstants(c *Check, p *Program, rule string) {
 		c.Cond(ok, rule, "FrameDescriptor.Write#hash-range", p.Pos(dw.Pos()), "the writer computes the check byte over the descriptor (everything after the 4-byte magic)", "descriptorChecksum(buf[4:])", "the hashed range is not buf[4:]")
 	}
 	// header write: store of Checksum precedes its append; 'already written' latch uses Checksum > 0 (noted)
+}
+
+// atomSaysZero: the guard atom states that a non-negative count is zero, in any
+// of the equivalent comparison forms (x == 0, !(x != 0), x <= 0, x < 1, !(x > 0),
+// !(x >= 1), and the mirrored operand orders). Returns the value, or nil.
+func atomSaysZero(a Atom) ssa.Value {
+	if a.Kind != "cmp" {
+		return nil
+	}
+	b, ok := a.V.(*ssa.BinOp)
+	if !ok {
+		return nil
+	}
+	op, x, y := b.Op, b.X, b.Y
+	if _, isK := constUint(x); isK {
+		// mirror: k OP x  ->  x OP' k
+		x, y = y, x
+		switch op {
+		case token.LSS:
+			op = token.GTR
+		case token.LEQ:
+			op = token.GEQ
+		case token.GTR:
+			op = token.LSS
+		case token.GEQ:
+			op = token.LEQ
+		}
+	}
+	k, isK := constUint(y)
+	if !isK {
+		return nil
+	}
+	if op == token.EQL || op == token.NEQ {
+		// atomOf normalises (in)equalities: Val says whether equality holds
+		if a.Val {
+			op = token.EQL
+		} else {
+			op = token.NEQ
+		}
+	} else if !a.Val {
+		switch op {
+		case token.LSS:
+			op = token.GEQ
+		case token.LEQ:
+			op = token.GTR
+		case token.GTR:
+			op = token.LEQ
+		case token.GEQ:
+			op = token.LSS
+		}
+	}
+	switch {
+	case op == token.EQL && k == 0, op == token.LEQ && k == 0, op == token.LSS && k == 1:
+		return x
+	}
+	return nil
 }
